@@ -2,7 +2,7 @@ import RTV.Drv.Proto
 import RTV.Model.Choice
 import RTV.Model.ChoiceEnv
 import RTV.Model.Preprocess
-import RTV.Gen.Regexes
+import RTV.Gen.RegexesChoice
 import RTV.Gen.CharTables
 import RTV.Gen.Emoji
 /-! Driver handlers for L11 `Choice` (C20).
